@@ -326,7 +326,8 @@ func applyFault(c *Ctx, h *history, a attempt, f fault) (attempt, []vh.Val) {
 		a.events = a.events[:f.at]
 	case "cancel":
 		a.cancelAt = f.at
-	case "handler":
+	case "handler", "handler-cancel":
+		a.cancelInRefusal = f.kind == "handler-cancel"
 		a.verdicts = make([]bool, f.at+1)
 		for i := range a.verdicts {
 			a.verdicts[i] = i != f.at
@@ -381,7 +382,7 @@ func rawEvent(c *Ctx, cfg Cfg, typ int, body []byte) []byte {
 	return b
 }
 
-var faultKinds = []string{"end", "cancel", "handler", "mapper", "mismatch", "rowsquery", "intvar", "rand", "invalid"}
+var faultKinds = []string{"end", "cancel", "handler", "handler-cancel", "mapper", "mismatch", "rowsquery", "intvar", "rand", "invalid"}
 
 func runC04(c *Ctx) {
 	c.R.Rule = "history x fault kind {stream end, cancel, handler error, mapper error, mapper column-count mismatch, RowsQuery/IntVar/Rand event, invalid event} x fault point (every event / transaction index) x up to 3 failed attempts, then a clean attempt from the stored position; distinct = (fault kind, position class: before/inside/at-commit/after tx, attempt count)"
@@ -405,7 +406,7 @@ func runC04(c *Ctx) {
 		for _, fk := range faultKinds {
 			var points []int
 			switch fk {
-			case "handler":
+			case "handler", "handler-cancel":
 				for j := range h.txs {
 					points = append(points, j)
 				}
@@ -438,7 +439,7 @@ func runC04(c *Ctx) {
 					if att < nfail {
 						fa := fault{fk, pt}
 						if att > 0 { // later failures at a random smaller point of what is left
-							if fk == "handler" {
+							if fk == "handler" || fk == "handler-cancel" {
 								fa.at = 0
 							} else if fk != "mapper" && fk != "mismatch" {
 								fa.at = 2 + r.Intn(len(a.events)-1)
@@ -499,7 +500,7 @@ func knownFile(h *history, f string) bool {
 }
 
 func pointClass(h *history, fk string, pt int, idx []int) string {
-	if fk == "handler" || fk == "mapper" || fk == "mismatch" {
+	if fk == "handler" || fk == "handler-cancel" || fk == "mapper" || fk == "mismatch" {
 		return "tx-or-table"
 	}
 	// classify the served event index against transaction boundaries
@@ -577,4 +578,25 @@ func runC01(c *Ctx) {
 		c.R.Count(strings.Replace(cl, "start0", "startK", 1))
 	}
 	e2eRun(c, "C01")
+}
+
+// typedHistories: end-to-end part of the cell properties (C10-C13): histories whose tables use only the property's
+// column types, with partial row images and NULLs, through parseEvents; deliveries against the unit-level oracle.
+func typedHistories(c *Ctx, prop string, cases []int, n int) {
+	r := c.Rng
+	for hi := 0; hi < n; hi++ {
+		cfg := baseCfgs[hi%len(baseCfgs)]
+		h := genHistory(r, cfg, histOpts{units: 3 + r.Intn(4), maxCols: 2 + r.Intn(10), maxRows: 3, rotations: false, ignorables: false,
+			kindsOnly: []string{"txXid", "autoRows", "txCommit"}, colCases: cases})
+		h.encode(c)
+		nulls, absents := false, false
+		for _, e := range h.events {
+			if e.rows != nil {
+				nulls = nulls || e.rows.nullsSeen
+				absents = absents || e.rows.absentSeen
+			}
+		}
+		c.R.Count(fmt.Sprintf("end-to-end/%s/null%v/absent%v", cfg.Key(), nulls, absents))
+		checkFullRun(c, prop, h, "end-to-end")
+	}
 }
